@@ -304,6 +304,7 @@ class Check(PropertyCheck):
         out: List[Violation] = []
         self.stats['distinct_nontrivial'] = 0
         out += self.check_name_shapes()
+        out += self.check_moves()
         out += self.check_tables()
         out += self.check_exhaustive()
         out += self.check_pairs()
@@ -704,9 +705,40 @@ class Check(PropertyCheck):
                 cases.append({'rules': rules, 'queries': [['obj', t], ['obj', t]], 'enumerated': False})
         return cases
 
-    def check_privacy(self) -> List[Violation]:
+    @staticmethod
+    def case_of(c: dict, k: int, queries: Optional[List[Any]] = None) -> dict:
+        d = {'kind': 'privacy', 'rules': c['rules'], 'queries': c['queries'] if queries is None else queries, 'index': k}
+        for key in ('history', 'system'):
+            if key in c:
+                d[key] = c[key]
+        return d
+
+    # -- objects that move: the privacy follows the CURRENT qualified name
+    def check_moves(self) -> List[Violation]:
+        impl_src = ('class Klass:\n    def meth(self): ...\n    def _helper(self): ...\n    class Inner:\n        attr = 1\n'
+                    'def func(): ...\n')
+        api_src = 'from impl import Klass\n__all__ = [\'Klass\']\n'
+        pats = ['impl.**', 'api.**', 'api.Klass._*', 'impl.Klass.*', 'api.Klass.meth', 'impl.Klass.meth', 'api.*.Inner.*']
+        atoms = [[l, p] for p in pats for l in range(3)]
+        lists = [[]] + [[a] for a in atoms] + [[a, b] for a in atoms for b in atoms if a[1] != b[1]]
+        lists.append([[1, 'impl.**'], [0, 'api.Klass._*'], [2, 'api.Klass.Inner.attr'], [1, 'api.*.Inner.*']])
+        if self.tier == 'quick':
+            lists = lists[:22] + lists[22::7] + lists[-1:]
+        cases = []
+        for rules in lists:
+            for move in (['reparent', 'impl.Klass', 'api', 'Klass'], ['module', api_src, 'api']):
+                mods = [[impl_src, 'impl', None, False]] + ([['', 'api', None, False]] if move[0] == 'reparent' else [])
+                for before in (True, False):
+                    steps = ([['queryall']] if before else []) + [move, ['queryall'], ['queryall']]
+                    cases.append({'rules': rules, 'queries': steps, 'history': {'modules': mods, 'steps': steps}})
+        self.stats['move_histories'] = len(cases)
+        return self.check_privacy(cases)
+
+    def check_privacy(self, cases: Optional[List[dict]] = None) -> List[Violation]:
         out: List[Violation] = []
-        cases = self.privacy_cases()
+        given = cases is not None
+        if cases is None:
+            cases = self.privacy_cases()
         impl = lib.run_impl_worker('c13_privacy.py', cases, jobs=16)
         minputs = []
         for c, obs in zip(cases, impl):
@@ -727,8 +759,8 @@ class Check(PropertyCheck):
             if got != want:
                 k = next(i for i, (a, b) in enumerate(zip(got, want)) if a != b)
                 self.add(out, Violation('correspondence', 'the interpretation of the translated code of System.privacyClass and the '
-                                        'real privacyClass disagree', case={'kind': 'privacy', 'rules': c['rules'],
-                                                                            'queries': [q for q in c['queries'] if q[0] in ('obj', 'ghost')], 'index': k},
+                                        'real privacyClass disagree',
+                                        case=self.case_of(c, k, None if 'history' in c else [q for q in c['queries'] if q[0] in ('obj', 'ghost')]),
                                         expected=got[k], observed=want[k]))
         nt = 0
         for c, obs, m in zip(cases, impl, mod):
@@ -737,7 +769,7 @@ class Check(PropertyCheck):
             self.count('rules_len_%d' % len(c['rules']))
             for k, (o, mm) in enumerate(zip(obs, m)):
                 full, name, has_kind, is_mod, res = o[:5]
-                case = {'kind': 'privacy', 'rules': c['rules'], 'queries': c['queries'], 'index': k}
+                case = self.case_of(c, k)
                 self.count(['level_', 'visible_', 'isprivate_'][o[5]] + ((LEVELS[res[1]] if o[5] == 0 else str(bool(res[1]))) if res[0] == 0 else 'error_%s' % (res[1],)))
                 if mm != res:
                     self.add(out, Violation('correspondence', 'Model.Privacy and the real privacyClass disagree on %s (query %d)'
@@ -748,7 +780,7 @@ class Check(PropertyCheck):
                 if any(p == full or pmatch(p, full) == (False, True) for _, p in c['rules']):
                     nt += 1
         self.count('distinct_nontrivial', nt)
-        for c in cases[700:702] + cases[-20:-19]:
+        for c in (cases[-1:] if given else cases[700:702] + cases[-20:-19]):
             self.sample({'rules': c['rules'], 'queries': c['queries']})
         return out
 
@@ -899,7 +931,11 @@ class Check(PropertyCheck):
             print('property  :', o or 'holds on this input')
             return 1 if o else 0
         if kind == 'privacy':
-            obs = lib.run_impl_worker('c13_privacy.py', [{'rules': c['rules'], 'queries': c['queries'], 'system': c.get('system', 'main')}])[0]
+            payload = {'rules': c['rules'], 'queries': c['queries'], 'system': c.get('system', 'main')}
+            if 'history' in c:
+                payload['history'] = c['history']
+                print('history   :', c['history']['steps'])
+            obs = lib.run_impl_worker('c13_privacy.py', [payload])[0]
             rc = 0
             print('rules (command-line order):', [(LEVELS[l], p) for l, p in c['rules']])
             for k, o in enumerate(obs):
